@@ -430,7 +430,11 @@ func (p *Parser) parseBuffer(buf []byte, last bool) error {
 			if digitMap[b] == numDigit {
 				off++
 			}
-			p.mode = fracMap
+			if p.num.Div == 1 { // no digit yet, one is required
+				p.mode = dotMap
+			} else {
+				p.mode = fracMap
+			}
 		case numFrac:
 			p.num.AddFrac(b)
 			p.mode = fracMap
